@@ -9,11 +9,34 @@ exercises three input classes that single fresh big-endian calls cannot reach:
 * histories: every object an entry point returns is kept, calls go on (same code, other codes),
   some kept objects are overwritten by the caller, and all kept objects are read again later,
 * structured received words: one word of every coset (every syndrome), low-weight error patterns,
-  words of one code resized to the length of another.
+  words of one code resized to the length of another, code words under the transformations a sloppy
+  checker may be blind to (reversed, complemented, rotated, octets swapped, …),
+* argument provenance: ndarrays that are read-only (setflags, frombuffer over bytes, broadcast views,
+  memory maps), that live in foreign memory (bytearray), Fortran-ordered rows / columns, non-native
+  byte order, other item sizes, object dtype, subclasses, unaligned, and views with an explicit random
+  layout (item size x byte order x offset x stride x writeable; the Lean model reads the same buffer);
+  bitarrays produced by the library's own converters / by slicing; the output of one entry point
+  handed to another; undocumented containers (immutable bitarray for the in-place repair, list,
+  tuple, str, bytes, 2-D, float): the call may raise, what it returns must be right,
+* error paths: calls that are rejected or raise (wrong length shorter / longer / empty, no bits at
+  all, wrong container, an exception in the middle of a repair) inside the histories, and — in
+  forked processes in which the library has been imported and nothing has been called ("scenarios") —
+  as the FIRST call a class ever sees, for every code x entry point x kind, each followed by the
+  single / double error sweep through every entry point.  Siblings of that: the first call uses an
+  unusual container, goes to another class, to a caller-defined HammingCommon class with the same
+  dimensions / name, happens inside BPTC / VBPTC, the modules are reloaded, rejected calls later,
+* ambient interpreter state (scenarios): root logger at DEBUG, failing stdout / stderr, random
+  reseeded between the calls, warnings as errors, numpy errstate raise, and a `python -O` process.
 """
+import gc
+import io
 import itertools
 import json
+import logging
 import os
+import random as _random
+import sys
+import warnings
 
 import numpy
 from bitarray import bitarray, frozenbitarray
@@ -62,13 +85,21 @@ def call(fn, *a):
         return impl_error(e)
 
 
-def canon(obj) -> str:
-    """logical content of an argument / result object as 0101… (never a repr)"""
+_DIG = {0: "0", 1: "1"}  # also the keys False / True / 0.0 / 1.0 (equal, same hash)
+
+
+def canon(obj, flat=False) -> str:
+    """logical content of an argument / result object as 0101… (never a repr); flat: a column / row
+    matrix counts as its sequence of elements"""
     if isinstance(obj, str):
         return obj
     try:
         if isinstance(obj, numpy.ndarray):
-            return "".join(str(int(x)) for x in obj.tolist())
+            if flat:
+                obj = obj.ravel()
+            return "".join(map(_DIG.__getitem__, obj.tolist()))
+        if isinstance(obj, bitarray):
+            return obj.to01()
         return "".join("1" if b else "0" for b in obj)
     except BaseException as e:  # noqa
         return "ERR uncanonical " + type(e).__name__
@@ -94,6 +125,44 @@ class _SubBitarray(bitarray):
 BA_FORMS = ("be", "le", "dirty-be", "dirty-le", "sub-le", "buf-be", "buf-le", "frozen-be", "frozen-le")
 NP_FORMS = ("np-int64", "np-col", "np-rev", "np-uint8", "np-bool")
 MUTABLE_BA_FORMS = tuple(f for f in BA_FORMS if not f.startswith("frozen"))
+# bitarrays that come out of another code path of the library / of the caller's own conversions
+BA_LIB_FORMS = ("lib-n2b", "lib-n2b-le", "ba-slice", "ba-from-bytes")
+# ---- provenance of an ndarray argument: who owns the memory, may it be written, how is it laid out
+NP_PROV_FORMS = (
+    "np-ro",  # setflags(write=False)
+    "np-frombuf",  # numpy.frombuffer(<bytes>): a read-only view of an immutable object
+    "np-frombuf-rw",  # numpy.frombuffer(<bytearray>): writeable, memory owned by the caller's bytearray
+    "np-bcast",  # a row of numpy.broadcast_to(...): read-only
+    "np-bcast-same",  # numpy.broadcast_to(a, a.shape): read-only view of a writeable array
+    "np-frow",  # row of a Fortran-ordered table (strided)
+    "np-fcol",  # column of a Fortran-ordered table (contiguous)
+    "np-ro-col",  # column of a C-ordered table that was frozen
+    "np-be64",  # non-native byte order
+    "np-be16",
+    "np-be32",
+    "np-int8",
+    "np-int16",
+    "np-uint64",
+    "np-object",  # dtype=object of Python ints
+    "np-object-bool",  # dtype=object of Python bools
+    "np-sub",  # view as a subclass of ndarray
+    "np-memmap-ro",  # numpy.memmap(mode="r")
+    "np-lib-b2n",  # produced by the library's own bitarray_to_numpy_array
+    "np-unaligned",  # int64 elements at an odd offset of a bytes object (read-only, not aligned)
+)
+# the logical bits in a container no entry point documents: the call may raise, but what it returns must be right
+ODD_FORMS = ("odd-list", "odd-tuple", "odd-str", "odd-bytes", "odd-2d-row", "odd-2d-col", "odd-float", "odd-robuf")
+# no bits at all
+VOID_FORMS = ("odd-none", "odd-int", "odd-0d", "odd-object", "odd-val2", "odd-valneg", "odd-valnan")  # the last three: elements that are no bits
+READONLY_NP_FORMS = ("np-ro", "np-frombuf", "np-bcast", "np-bcast-same", "np-ro-col", "np-memmap-ro", "np-unaligned")
+
+
+class _SubNd(numpy.ndarray):
+    pass
+
+
+def is_np_form(form: str) -> bool:
+    return form.startswith("np-")
 
 
 def _endian(form: str) -> str:
@@ -103,6 +172,31 @@ def _endian(form: str) -> str:
 def endian_of(b) -> str:
     e = b.endian
     return e() if callable(e) else e
+
+
+def layout_form(sz, big, off, stride, pad, ro) -> str:
+    return f"np-lay/{sz}/{'B' if big else 'L'}/{off}/{stride}/{pad}/{'ro' if ro else 'rw'}"
+
+
+def layout_buffer(form: str, s: str):
+    """(itemsize, big, offset, stride, read-only, buffer octets) of an explicit-layout ndarray form"""
+    _, sz, bo, off, stride, pad, ro = form.split("/")
+    sz, off, stride, pad = int(sz), int(off), int(stride), int(pad)
+    buf = bytearray([pad]) * (off + len(s) * stride + sz + 3)
+    for i, ch in enumerate(s):
+        buf[off + i * stride : off + i * stride + sz] = int(ch).to_bytes(sz, "big" if bo == "B" else "little")
+    return sz, bo == "B", off, stride, ro == "ro", buf
+
+
+def layout_line_args(form: str, s: str) -> str:
+    sz, big, off, stride, _, buf = layout_buffer(form, s)
+    return f"{sz} {'big' if big else 'little'} {off} {stride} {len(s)} {bytes(buf).hex()}"
+
+
+def random_layout(rng) -> str:
+    sz = rng.choice((1, 1, 2, 4, 8, 8))
+    stride = sz * rng.choice((1, 1, 2, 3, 13)) + rng.choice((0, 0, 0, 1, 3))
+    return layout_form(sz, rng.random() < 0.4 and sz > 1, rng.choice((0, 0, 1, 3, 8, 24)), stride, rng.choice((0, 1, 255, 170)), rng.random() < 0.5)
 
 
 def mk_arg(form: str, s: str):
@@ -126,6 +220,17 @@ def mk_arg(form: str, s: str):
     if form.startswith("frozen-"):
         return frozenbitarray(s, endian=_endian(form))
     vals = [int(ch) for ch in s]
+    if form.startswith("lib-n2b"):
+        from okdmr.dmrlib.utils.bits_bytes import numpy_array_to_bitarray
+
+        b = numpy_array_to_bitarray(numpy.array(vals, dtype=int))
+        return bitarray(b, endian="little") if form.endswith("le") else b
+    if form == "ba-slice":
+        return bitarray("101" + s + "01")[3 : 3 + len(s)]  # what callers do: a slice of a longer burst
+    if form == "ba-from-bytes":
+        b = bitarray()
+        b.frombytes(bitarray(s).tobytes())
+        return b[: len(s)]
     if form == "np-int64":
         return numpy.array(vals, dtype=numpy.int64)
     if form == "np-col":
@@ -139,6 +244,106 @@ def mk_arg(form: str, s: str):
         return numpy.array(vals, dtype=numpy.uint8)
     if form == "np-bool":
         return numpy.array(vals, dtype=bool)
+    # ---- provenance
+    if form == "np-ro":
+        a = numpy.array(vals, dtype=numpy.int64)
+        a.setflags(write=False)
+        return a
+    if form == "np-frombuf":
+        return numpy.frombuffer(bytes(vals), dtype=numpy.uint8)
+    if form == "np-frombuf-rw":
+        return numpy.frombuffer(bytearray(vals), dtype=numpy.uint8)
+    if form == "np-bcast":
+        return numpy.broadcast_to(numpy.array(vals, dtype=int), (3, len(vals)))[1]
+    if form == "np-bcast-same":
+        a = numpy.array(vals, dtype=int)
+        return numpy.broadcast_to(a, a.shape)
+    if form == "np-frow":
+        t = numpy.asfortranarray(numpy.ones((3, len(vals)), dtype=int))
+        t[1, :] = vals
+        return t[1, :]
+    if form == "np-fcol":
+        t = numpy.asfortranarray(numpy.ones((len(vals), 3), dtype=int))
+        t[:, 1] = vals
+        return t[:, 1]
+    if form == "np-ro-col":
+        t = numpy.ones((len(vals), 3), dtype=int)
+        t[:, 1] = vals
+        t.setflags(write=False)
+        return t[:, 1]
+    if form in ("np-be64", "np-be16", "np-be32", "np-int8", "np-int16", "np-uint64"):
+        dt = {"np-be64": ">i8", "np-be16": ">u2", "np-be32": ">i4", "np-int8": "i1", "np-int16": "<i2", "np-uint64": "<u8"}[form]
+        return numpy.array(vals, dtype=numpy.dtype(dt))
+    if form == "np-object":
+        a = numpy.empty(len(vals), dtype=object)
+        a[...] = vals
+        return a
+    if form == "np-object-bool":
+        a = numpy.empty(len(vals), dtype=object)
+        a[...] = [bool(v) for v in vals]
+        return a
+    if form == "np-sub":
+        return numpy.array(vals, dtype=int).view(_SubNd)
+    if form == "np-memmap-ro":
+        if not vals:
+            a = numpy.array(vals, dtype=numpy.uint8)
+            a.setflags(write=False)
+            return a
+        import tempfile
+
+        try:
+            with tempfile.TemporaryFile() as fh:
+                fh.write(bytes(vals))
+                fh.flush()
+                return numpy.memmap(fh, dtype=numpy.uint8, mode="r", shape=(len(vals),))
+        except OSError:  # no place for a temporary file: a frozen array instead
+            a = numpy.array(vals, dtype=numpy.uint8)
+            a.setflags(write=False)
+            return a
+    if form == "np-lib-b2n":
+        from okdmr.dmrlib.utils.bits_bytes import bitarray_to_numpy_array
+
+        return bitarray_to_numpy_array(bitarray(s))
+    if form == "np-unaligned":
+        raw = b"\xff" + b"".join(v.to_bytes(8, "little") for v in vals)
+        return numpy.ndarray(shape=(len(vals),), dtype="<i8", buffer=raw, offset=1)
+    if form.startswith("np-lay/"):
+        sz, big, off, stride, ro, buf = layout_buffer(form, s)
+        dt = numpy.dtype((">" if big else "<") + ("i" if sz > 1 else "u") + str(sz))
+        return numpy.ndarray(shape=(len(s),), dtype=dt, buffer=bytes(buf) if ro else buf, offset=off, strides=(stride,))
+    # ---- undocumented containers
+    if form == "odd-list":
+        return vals
+    if form == "odd-tuple":
+        return tuple(vals)
+    if form == "odd-str":
+        return s
+    if form == "odd-bytes":
+        return bytes(vals)
+    if form == "odd-2d-row":
+        return numpy.array([vals], dtype=int)
+    if form == "odd-2d-col":
+        return numpy.array([[v] for v in vals], dtype=int).reshape(len(vals), 1)
+    if form == "odd-float":
+        return numpy.array(vals, dtype=float)
+    if form == "odd-robuf":
+        # a bitarray over an immutable buffer (read-only); whole octets only, else the frozen variant
+        if len(s) % 8 == 0 and s:
+            return bitarray(buffer=bitarray(s).tobytes())
+        return frozenbitarray(s)
+    if form == "odd-none":
+        return None
+    if form == "odd-int":
+        return int(s, 2) if s else 0
+    if form == "odd-0d":
+        return numpy.array(1 if "1" in s else 0)
+    if form == "odd-object":
+        return object()
+    if form in ("odd-val2", "odd-valneg", "odd-valnan"):
+        # an array of the right length whose elements are not all 0 / 1
+        a = numpy.array(vals or [0], dtype=float if form == "odd-valnan" else int)
+        a[len(a) // 2] = {"odd-val2": 2, "odd-valneg": -1, "odd-valnan": float("nan")}[form]
+        return a
     raise ValueError(form)
 
 
@@ -153,6 +358,8 @@ def store_args(arg) -> str:
 class Ref:
     def __init__(self, name, n, k, d, is_hamming, G):
         self.name, self.n, self.k, self.d, self.is_hamming = name, n, k, d, is_hamming
+        self.G = G
+        self.detects_double = name == "h16114"  # the extended code: d = 4
         rows = [int("".join(str(x) for x in r), 2) for r in G]
         cw = [0] * (2**k)
         for v in range(1, 2**k):
@@ -180,7 +387,7 @@ class Ref:
                 for b in range(self.n):
                     n1[c ^ (1 << b)] = c
             self.near1 = n1
-            if self.name == "h16114":
+            if self.detects_double:
                 n2 = set()
                 masks = [(1 << a) | (1 << b) for a, b in itertools.combinations(range(self.n), 2)]
                 for c in self.cw_int:
@@ -224,18 +431,249 @@ class Fails:
 # ------------------------------------------------------------------------------------------------
 # histories
 # ------------------------------------------------------------------------------------------------
-# a step is a list: [op, code, form, bits] with op in gen / check / cac / correct, or
-# ["overwrite", ref, bits].  Every gen / cac / correct allocates the next handle (0, 1, 2, …).
+# a step is a list:
+#   [op, code, form, bits]            op in gen / check / cac / correct; bits "-" = no bits at all
+#   ["overwrite", ref, bits]          the caller overwrites a kept object
+#   ["reload", "-"]                   the library modules are executed again (importlib.reload)
+#   ["ambient", what]                 process-wide interpreter state is changed (AMBIENT)
+#   ["custom", name, base, variant]   a class of the caller's own next to the standard ones (CUSTOM_VARIANTS)
+#   ["lib", what, bits]               another part of the library that uses the block codes is called (LIB_CALLS)
+# Every gen / cac / correct step owns the next handle (0, 1, 2, …) whether or not the call returns.
 RESULT_OPS = ("gen", "cac", "correct")
+CALL_OPS = ("gen", "check", "cac", "correct")
+META_OPS = ("reload", "ambient", "custom", "lib")
+AMBIENT = ("log-debug", "stdout-raises", "stderr-raises", "reseed", "warnings-error", "np-err-raise", "gc", "restore")
+CUSTOM_VARIANTS = ("subclass", "sibling", "permuted", "permuted-same-name")
 
 
-def step_line(st) -> str:
+def bits_of(x: str) -> str:
+    return "" if x == "-" else x
+
+
+def bits_tok(s: str) -> str:
+    return s if s else "-"
+
+
+def documented(op: str, form: str) -> bool:
+    """is `form` a container the entry point behind `op` is meant to be called with"""
+    if form.startswith("odd-"):
+        return False
+    if op == "gen":
+        return True  # bitarray (annotated) and ndarray rows / columns (BPTC, VBPTC)
+    if op == "check":
+        return not is_np_form(form)
+    if op == "cac":
+        return form in MUTABLE_BA_FORMS or form in BA_LIB_FORMS
+    return is_np_form(form)  # correct_numpy_array
+
+
+def step_class(table, st) -> str:
+    """
+    strict:  documented container holding a word of the documented length: the property fixes the result;
+    lenient: the right number of bits in another container: the call may raise, what it returns must be right;
+    bad:     wrong length / no bits: the call is expected to be rejected; only its after-effects matter
+             (and a rejected word must not be reported as a code word / as repaired)
+    """
+    op, code, form, s = st[0], st[1], st[2], bits_of(st[3])
+    _, _, n, k, _, _ = table[code]
+    if form in VOID_FORMS or len(s) != (k if op == "gen" else n):
+        return "bad"
+    return "strict" if documented(op, form) else "lenient"
+
+
+def step_line(table, st, klass=None):
+    """the model's line of a step; None when the model has no counterpart (then nothing is compared)"""
     if st[0] == "overwrite":
         return f"h.overwrite {st[1]} {st[2]}"
-    return f"h.{st[0]} {st[1]} {st[3]}"
+    if st[0] in META_OPS or st[1].startswith("custom:"):
+        return None
+    if klass is None:
+        klass = step_class(table, st)
+    if klass == "lenient" or not documented(st[0], st[2]) or st[2] in VOID_FORMS:
+        return None
+    return f"h.{st[0]} {st[1]} {bits_tok(bits_of(st[3]))}"
 
 
-def apply_step(table, held, st):
+class _Raiser:
+    """a text stream on which every write fails (a closed pipe, a full disk)"""
+
+    encoding = "utf-8"
+
+    def write(self, *_a):
+        raise OSError("write failed")
+
+    def writelines(self, *_a):
+        raise OSError("write failed")
+
+    def flush(self):
+        raise OSError("flush failed")
+
+    def isatty(self):
+        return False
+
+    def fileno(self):
+        raise OSError("no descriptor")
+
+
+_AMBIENT_SAVED = {}
+
+
+def ambient(what: str):
+    sv = _AMBIENT_SAVED
+    if what == "log-debug":
+        root = logging.getLogger()
+        sv.setdefault("log", (root.level, list(root.handlers), logging.root.manager.disable))
+        h = logging.StreamHandler(io.StringIO())
+        h.setFormatter(logging.Formatter("%(asctime)s %(name)s %(levelname)s %(message)s"))
+        root.addHandler(h)
+        root.setLevel(logging.DEBUG)
+        logging.disable(logging.NOTSET)
+    elif what == "stdout-raises":
+        sv.setdefault("stdout", sys.stdout)
+        sys.stdout = _Raiser()
+    elif what == "stderr-raises":
+        sv.setdefault("stderr", sys.stderr)
+        sys.stderr = _Raiser()
+    elif what == "reseed":
+        _random.seed(20260926)
+        numpy.random.seed(20260926)
+    elif what == "warnings-error":
+        sv.setdefault("warnings", list(warnings.filters))
+        warnings.simplefilter("error")
+    elif what == "np-err-raise":
+        sv.setdefault("nperr", numpy.geterr())
+        numpy.seterr(all="raise")
+    elif what == "gc":
+        gc.collect()
+    elif what == "restore":
+        if "stdout" in sv:
+            sys.stdout = sv.pop("stdout")
+        if "stderr" in sv:
+            sys.stderr = sv.pop("stderr")
+        if "log" in sv:
+            level, handlers, disabled = sv.pop("log")
+            root = logging.getLogger()
+            root.handlers[:] = handlers
+            root.setLevel(level)
+            logging.disable(disabled)
+        if "warnings" in sv:
+            warnings.filters[:] = sv.pop("warnings")
+            if hasattr(warnings, "_filters_mutated"):
+                warnings._filters_mutated()
+        if "nperr" in sv:
+            numpy.seterr(**sv.pop("nperr"))
+    else:
+        raise ValueError(what)
+
+
+LIB_MODULES = (
+    "okdmr.dmrlib.utils.bits_bytes",
+    "okdmr.dmrlib.etsi.fec.fec_utils",
+    "okdmr.dmrlib.etsi.fec.hamming_common",
+    "okdmr.dmrlib.etsi.fec.hamming_7_4_3",
+    "okdmr.dmrlib.etsi.fec.hamming_13_9_3",
+    "okdmr.dmrlib.etsi.fec.hamming_15_11_3",
+    "okdmr.dmrlib.etsi.fec.hamming_16_11_4",
+    "okdmr.dmrlib.etsi.fec.hamming_17_12_3",
+    "okdmr.dmrlib.etsi.fec.golay_20_8_7",
+    "okdmr.dmrlib.etsi.fec.quadratic_residue_16_7_6",
+)
+
+
+def reload_library(table):
+    """execute the library modules again; the table then refers to the new class objects"""
+    import importlib
+    import sys
+
+    for m in LIB_MODULES:
+        if m in sys.modules:
+            importlib.reload(sys.modules[m])
+    for c in codes():
+        table[c[0]] = c
+
+
+def define_custom(table, refs, name, base, variant):
+    """a class of the caller's own, built on the library's HammingCommon, next to the standard ones"""
+    from okdmr.dmrlib.etsi.fec.fec_utils import derive_parity_check_matrix_from_generator
+    from okdmr.dmrlib.etsi.fec.hamming_common import HammingCommon
+
+    _, bcls, n, k, d, is_hamming = table[base]
+    if not is_hamming:
+        raise ValueError("custom classes are built on HammingCommon")
+    custom_ref(refs, name, base, variant)
+    G = refs[name].G
+    if variant == "subclass":
+        cls = type("Sub" + bcls.__name__, (bcls,), {})
+    else:
+        Gm = numpy.array(G)
+        cls = type(
+            bcls.__name__ if variant.endswith("same-name") else "Custom" + bcls.__name__,
+            (HammingCommon,),
+            {
+                "GENERATOR_MATRIX": Gm,
+                "PARITY_CHECK_MATRIX": derive_parity_check_matrix_from_generator(Gm),
+                "CORRECT_SYNDROME": numpy.zeros(n - k, dtype=int),
+                "CODEWORD_LENGTH": n,
+                "CODE_DIMENSION": k,
+                "MINIMUM_HAMMING_DISTANCE": d,
+            },
+        )
+    table[name] = (name, cls, n, k, d, True)
+
+
+def custom_ref(refs, name, base, variant):
+    """the reference of a caller-defined class (no library call involved)"""
+    B = refs[base]
+    k = B.k
+    G = [list(map(int, row)) for row in B.G]
+    if variant.startswith("permuted"):
+        # the parity columns rotated by one: an equivalent code (same n, k, d), other code words
+        G = [row[:k] + row[k + 1 :] + row[k : k + 1] for row in G]
+    elif variant not in ("sibling", "subclass"):
+        raise ValueError(variant)
+    R = Ref(name, B.n, k, B.d, True, G)
+    R.detects_double = B.detects_double
+    refs[name] = R
+
+
+LIB_CALLS = {"bptc-repair": 196, "bptc-encode": 96, "vbptc-encode": 72}  # name -> number of bits of the argument
+
+
+def lib_call(what: str, bits: str):
+    """the block codes used through the product codes built on them; whatever the call does is not our concern here"""
+    try:
+        if what == "bptc-repair":
+            from okdmr.dmrlib.etsi.fec.bptc_196_96 import BPTC19696
+
+            BPTC19696.repair_if_necessary(bitarray(bits))
+        elif what == "bptc-encode":
+            from okdmr.dmrlib.etsi.fec.bptc_196_96 import BPTC19696
+
+            BPTC19696.encode(bitarray(bits))
+        elif what == "vbptc-encode":
+            from okdmr.dmrlib.etsi.fec.vbptc_128_72 import VBPTC12873
+
+            VBPTC12873.encode(bitarray(bits))
+        else:
+            raise ValueError(what)
+    except ValueError:
+        raise
+    except BaseException:  # noqa
+        pass
+
+
+def apply_meta(table, refs, st):
+    if st[0] == "lib":
+        lib_call(st[1], bits_of(st[2]))
+    elif st[0] == "reload":
+        reload_library(table)
+    elif st[0] == "ambient":
+        ambient(st[1])
+    elif st[0] == "custom":
+        define_custom(table, refs, st[1], st[2], st[3])
+
+
+def apply_step(table, held, st, klass="strict"):
     """run one step on the real code; returns (output line, result object or None)"""
     op = st[0]
     if op == "overwrite":
@@ -249,13 +687,15 @@ def apply_step(table, held, st):
         except BaseException as e:  # noqa  (read-only result objects are not a violation)
             return impl_error(e), None
     cls = table[st[1]][1]
-    arg = mk_arg(st[2], st[3])
+    arg = mk_arg(st[2], bits_of(st[3]))
     ref = len(held)
+    flat = klass != "strict"
     if op == "gen":
         r = call(cls.generate, arg)
-        return (r, None) if isinstance(r, str) else (f"{ref} {canon(r)}", r)
+        return (r, None) if isinstance(r, str) else (f"{ref} {canon(r, flat)}", r)
     if op == "check":
-        return b01(call(cls.check, arg)), None
+        r = call(cls.check, arg)
+        return (b01(r) if isinstance(r, str) or r is True or r is False or isinstance(r, numpy.bool_) else f"ERR not-a-bool {type(r).__name__}"), None
     if op == "cac":
         r = call(cls.check_and_correct, arg)
         if isinstance(r, str):
@@ -264,10 +704,10 @@ def apply_step(table, held, st):
             ok, obj = r
         except BaseException as e:  # noqa
             return impl_error(e), None
-        return f"{ref} {b01(ok)} {canon(obj)}", obj
+        return f"{ref} {b01(ok)} {canon(obj, flat)}", obj
     if op == "correct":
         r = call(cls.correct_numpy_array, arg)
-        return (r, None) if isinstance(r, str) else (f"{ref} {canon(r)}", r)
+        return (r, None) if isinstance(r, str) else (f"{ref} {canon(r, flat)}", r)
     raise ValueError(op)
 
 
@@ -277,15 +717,16 @@ def expected_line(refs, ref, st):
     if op == "overwrite":
         return None
     R = refs[st[1]]
+    s = bits_of(st[3])
     if op == "gen":
-        return f"{ref} {R.enc(st[3])}"
+        return f"{ref} {R.enc(s)}"
     if op == "check":
-        return b01(R.is_cw(st[3]))
+        return b01(R.is_cw(s))
     if op == "cac":
-        e = R.cac(st[3])
+        e = R.cac(s)
         return None if e is None else f"{ref} {e}"
     if op == "correct":
-        e = R.correct(st[3])
+        e = R.correct(s)
         return None if e is None else f"{ref} {e}"
 
 
@@ -296,7 +737,10 @@ def run_history(table, refs, steps, window=3, on_bad=None):
     where lines = [(model line, implementation output)] including the final reads.
     on_bad(kind, index of the offending step, index of the step whose result is affected, expected, actual)
     """
+    table, refs = dict(table), dict(refs)  # classes defined by the history are local to it
     held, exp, owner, lines = [], [], [], []
+    mref = []  # the model's handle of a kept object (the model hands out nothing for a rejected call)
+    nmodel = 0
     reported = set()
 
     def reread(lo, at):
@@ -309,31 +753,64 @@ def run_history(table, refs, steps, window=3, on_bad=None):
                 if on_bad:
                     on_bad("held-result-changed", at, owner[r], exp[r], cur)
 
-    for idx, st in enumerate(steps):
-        out, obj = apply_step(table, held, st)
-        if st[0] == "overwrite":
-            if out == "ok":
-                exp[st[1]] = st[2]
-                reported.discard(st[1])
-                lines.append((step_line(st), out))
-                reread(max(0, len(held) - window), idx)
-            continue
-        ref = len(held)
-        want = expected_line(refs, ref, st)
-        if want is not None and out != want and on_bad:
-            on_bad("wrong-result", idx, idx, want, out)
-        lines.append((step_line(st), out))
-        if st[0] in RESULT_OPS:
-            held.append(obj)
-            owner.append(idx)
-            exp.append(None if obj is None else out.split(" ")[-1])
-        reread(max(0, len(held) - window), idx)
-        if idx & (idx + 1) == 0:
-            reread(0, idx)  # everything kept so far, after 1, 2, 4, 8, … steps
-    reread(0, len(steps) - 1)
+    try:
+        for idx, st in enumerate(steps):
+            op = st[0]
+            if op in META_OPS:
+                apply_meta(table, refs, st)
+                continue
+            if op == "overwrite":
+                out, obj = apply_step(table, held, st)
+                if out == "ok":
+                    exp[st[1]] = st[2]
+                    reported.discard(st[1])
+                    if mref[st[1]] is not None:
+                        lines.append((f"h.overwrite {mref[st[1]]} {st[2]}", out))
+                    reread(max(0, len(held) - window), idx)
+                continue
+            klass = step_class(table, st)
+            out, obj = apply_step(table, held, st, klass)
+            ref = len(held)
+            err = out.startswith("ERR")
+            if klass == "bad":
+                # a word of the wrong length is no code word and cannot have been repaired (elements that are
+                # no bits, in containers no entry point documents, are not judged: only what happens afterwards)
+                if st[2] not in VOID_FORMS and not st[2].startswith("odd-"):
+                    if op == "check" and out == "1" and on_bad:
+                        on_bad("rejected-call-accepted", idx, idx, "an exception, or False", out)
+                    if op == "cac" and not err and out.split(" ")[1:2] == ["1"] and on_bad:
+                        on_bad("rejected-call-accepted", idx, idx, "an exception, or (False, …)", out)
+                obj = None
+            else:
+                want = expected_line(refs, ref, st)
+                if want is not None and out != want and not (klass == "lenient" and err) and on_bad:
+                    on_bad("wrong-result", idx, idx, want, out)
+                if klass == "lenient":
+                    obj = None
+            line = step_line(table, st, klass)
+            if line is not None:
+                mout = out
+                if op in RESULT_OPS and not err:
+                    mout = f"{nmodel} {out.split(' ', 1)[1]}"
+                lines.append((line, mout))
+            if op in RESULT_OPS:
+                held.append(obj)
+                owner.append(idx)
+                exp.append(None if obj is None else out.split(" ")[-1])
+                if obj is not None and line is not None:
+                    mref.append(nmodel)
+                    nmodel += 1
+                else:
+                    mref.append(None)
+            reread(max(0, len(held) - window), idx)
+            if idx & (idx + 1) == 0:
+                reread(0, idx)  # everything kept so far, after 1, 2, 4, 8, … steps
+        reread(0, len(steps) - 1)
+    finally:
+        ambient("restore")
     for r, obj in enumerate(held):
-        if obj is not None:
-            lines.append((f"h.read {r}", canon(obj)))
+        if obj is not None and mref[r] is not None:
+            lines.append((f"h.read {mref[r]}", canon(obj)))
     return lines, held, exp
 
 
@@ -512,6 +989,22 @@ def ddmin_fresh(prefix, keep):
         return None
 
 
+CODE_DIMS = {"h743": (7, 4), "h1393": (13, 9), "h15113": (15, 11), "h16114": (16, 11), "h17123": (17, 12), "golay2087": (20, 8), "qr1676": (16, 7)}
+
+
+def refs_len(st, which):
+    """documented length of the argument of a call step (custom classes share the dimensions of their base)"""
+    n, k = CODE_DIMS[st[1].split(":")[1] if st[1].startswith("custom:") else st[1]]
+    return k if which == "k" else n
+
+
+def is_bad_step(st) -> bool:
+    """a call that is expected to be rejected or to raise (wrong length, no bits, undocumented container)"""
+    if st[0] not in CALL_OPS:
+        return False
+    return not documented(st[0], st[2]) or st[2] in VOID_FORMS or len(bits_of(st[3])) != refs_len(st, "k" if st[0] == "gen" else "n")
+
+
 def small_candidates(steps, at, owner):
     """
     Short sub-histories that may still fail: the affected step alone / with the offending step /
@@ -519,15 +1012,23 @@ def small_candidates(steps, at, owner):
     on the same code (smallest first).
     """
     alloc = [i for i, st in enumerate(steps[: at + 1]) if st[0] in RESULT_OPS]
-    base = {owner, at}
+    base = {owner, at} | {i for i, st in enumerate(steps[:at]) if st[0] in META_OPS}
     if steps[at][0] == "overwrite" and steps[at][1] < len(alloc):
         base.add(alloc[steps[at][1]])
     sets = [base]
+    # the calls that were rejected / raised before (state left behind on an error path), the very first call
+    errs = [i for i in range(at) if is_bad_step(steps[i])]
+    sets.append(base | set(errs[:1]))
+    sets.append(base | set(errs[-1:]))
+    sets.append(base | {0})
+    first_call = next((i for i in range(at) if steps[i][0] in CALL_OPS), 0)
+    sets.append(base | {first_call})
     for back in (1, 2, 4, 8):
         sets.append(base | set(range(max(0, at - back), at)))
         sets.append(base | set(range(max(0, at - back), at)) | set(range(owner, min(at, owner + back + 1))))
+    sets.append(base | set(errs[-8:]) | set(errs[:2]))
     code = steps[owner][1]
-    same = [i for i in range(max(0, at - 4000), at) if steps[i][0] != "overwrite" and steps[i][1] == code]
+    same = [i for i in range(max(0, at - 4000), at) if steps[i][0] in CALL_OPS and steps[i][1] == code]
     for m in (6, 40):
         sets.append(base | set(same[-m:]))
     for m in (16, 128):
@@ -626,40 +1127,545 @@ def report_events(ctx, fails, steps, events):
         )
 
 
+# ------------------------------------------------------------------------------------------------
+# scenarios: histories on a library on which nothing has been called yet (one forked process each)
+# ------------------------------------------------------------------------------------------------
+SWEEP_BA = ("be", "le", "dirty-be", "sub-le", "lib-n2b", "ba-slice")
+SWEEP_NP = ("np-int64", "np-ro", "np-frombuf", "np-col", "np-be64", "np-bool", "np-object", "np-bcast", "np-uint8", "np-ro-col")
+
+
+def resized(s: str, n: int):
+    """the bits of a rejected argument cut / padded to the documented length (keys that collide with it)"""
+    out = []
+    for fill in "01":
+        for w in ((s + fill * n)[:n], (fill * n + s)[-n:]):
+            if w not in out:
+                out.append(w)
+    return out
+
+
+def sweep_steps(rng, refs, code, focus=(), light=False):
+    """
+    What the property says about one code, as a history: code words of a few messages, every single
+    error position through every repairing entry point (containers rotate), for the extended code
+    every double error, for Golay / QR every single and double error through the checker; the words
+    in `focus` (arguments of earlier rejected calls) cut / padded to the documented length.
+    """
+    R = refs[code]
+    n, k = R.n, R.k
+    steps = []
+    vs = [0, 2**k - 1] + [rng.randrange(2**k) for _ in range(1 if light else 3)]
+    pairs = list(itertools.combinations(range(n), 2))
+    for j, v in enumerate(vs):
+        c = R.cw_int[v]
+        steps.append(["gen", code, ("be", "le", "np-int64", "np-ro", "np-frombuf")[j % 5], format(v, f"0{k}b")])
+        steps.append(["check", code, SWEEP_BA[j % len(SWEEP_BA)], R.cw[v]])
+        if R.is_hamming:
+            for p in range(n):
+                steps.append(["cac", code, SWEEP_BA[(p + j) % len(SWEEP_BA)], format(c ^ (1 << p), R.fmt)])
+            for p in range(n):
+                steps.append(["correct", code, SWEEP_NP[(p + j) % len(SWEEP_NP)], format(c ^ (1 << p), R.fmt)])
+            steps.append(["check", code, "le", format(c ^ (1 << rng.randrange(n)), R.fmt)])
+            steps.append(["cac", code, "be", R.cw[v]])
+            steps.append(["correct", code, "np-ro", R.cw[v]])
+    c = R.cw_int[vs[2]]
+    if R.is_hamming and R.detects_double:
+        for a, b in pairs if not light else rng.sample(pairs, 40):
+            steps.append(["cac", code, "be", format(c ^ (1 << a) ^ (1 << b), R.fmt)])
+        for a, b in rng.sample(pairs, 30):
+            steps.append(["correct", code, SWEEP_NP[(a + b) % len(SWEEP_NP)], format(c ^ (1 << a) ^ (1 << b), R.fmt)])
+    if not R.is_hamming:
+        for p in range(n):
+            steps.append(["check", code, "be", format(c ^ (1 << p), R.fmt)])
+        for a, b in pairs if not light else rng.sample(pairs, 40):
+            steps.append(["check", code, "le" if (a + b) % 2 else "be", format(c ^ (1 << a) ^ (1 << b), R.fmt)])
+        for _ in range(30):
+            e = 0
+            for b in rng.sample(range(n), rng.randrange(3, R.d + 2)):
+                e |= 1 << b
+            steps.append(["check", code, "be", format(c ^ e, R.fmt)])
+    seen = []
+    for f in focus:
+        for w in resized(f, n):
+            if w in seen:
+                continue
+            seen.append(w)
+            steps.append(["check", code, "be", w])
+            if R.is_hamming:
+                steps.append(["cac", code, "be", w])
+                steps.append(["correct", code, "np-int64", w])
+        for m in resized(f, k)[:2]:
+            steps.append(["gen", code, "be", m])
+    return steps
+
+
+def scenario_steps(sc, refs):
+    if "steps" in sc:
+        return [list(st) for st in sc["steps"]]
+    import random
+
+    refs = dict(refs)
+    for st in sc["pre"]:
+        if st[0] == "custom":
+            custom_ref(refs, st[1], st[2], st[3])
+    rng = random.Random(f"{sc['id']}:{sc.get('seed', 0)}")
+    sweep = sweep_steps(rng, refs, sc["code"], sc.get("focus", ()), sc.get("light", False))
+    if sc.get("between"):
+        # e.g. random reseeded between the calls
+        mixed = []
+        for i, st in enumerate(sweep):
+            if i % 7 == 3:
+                mixed.append(list(sc["between"]))
+            mixed.append(st)
+        sweep = mixed
+    return [list(st) for st in sc["pre"]] + sweep
+
+
+SCENARIO_SHRINKS = 60  # short failing histories looked for per run of the scenario process
+
+
+def _scenarios_main():
+    """
+    stdin: {"scenarios": [...], "lines": bool}.  Every scenario runs in a process forked from this
+    one, which has imported the library and called nothing.  stdout: one JSON list of results.
+    """
+    import sys
+    import traceback
+
+    data = json.load(sys.stdin)
+    ref_json = json.load(open(os.path.join(os.path.dirname(os.path.abspath(__file__)), "..", "reference", "etsi_codes.json")))
+    table = {c[0]: c for c in codes()}
+    refs = {name: Ref(name, n, k, d, h, ref_json[name]["G"]) for name, _, n, k, d, h in codes()}
+    for R in refs.values():
+        R._near()  # the reference tables are built once, before any fork
+    gc.collect()
+    gc.freeze()  # … and are of no interest to a collection in the forked processes
+    want_lines = data.get("lines", True)
+
+    def forked(steps, lines):
+        rd, wr = os.pipe()
+        pid = os.fork()
+        if pid == 0:
+            os.close(rd)
+            ev, out = [], {}
+            try:
+                import signal
+
+                signal.alarm(300)  # a call that never returns must not hold up the check
+                ls, _, _ = run_history(table, refs, steps, on_bad=lambda *a: ev.append(list(a)) if len(ev) < EVENTS_PER_PROBE else None)
+                if lines:
+                    out["lines"] = ls
+            except BaseException:  # noqa
+                out["crash"] = traceback.format_exc()[-600:]
+            out["events"] = ev
+            try:
+                with os.fdopen(wr, "w") as fh:
+                    fh.write(json.dumps(out))
+            finally:
+                os._exit(0)
+        os.close(wr)
+        with os.fdopen(rd) as fh:
+            raw = fh.read()
+        os.waitpid(pid, 0)
+        try:
+            return json.loads(raw)
+        except ValueError:
+            return {"events": [], "crash": "the scenario process died"}
+
+    shrinks = [SCENARIO_SHRINKS]
+    results = []
+    for sc in data["scenarios"]:
+        try:
+            steps = scenario_steps(sc, refs)
+        except BaseException:  # noqa
+            results.append({"id": sc.get("id"), "events": [], "crash": traceback.format_exc()[-600:], "nsteps": 0})
+            continue
+        res = forked(steps, want_lines)
+        res["id"] = sc.get("id")
+        res["nsteps"] = len(steps)
+        res["shorts"] = []
+        npre = len(sc.get("pre", ()))
+        for kind, at, owner, _, _ in res["events"][:2]:
+            short = None
+            if shrinks[0] > 0:
+                shrinks[0] -= 1
+                cands = []
+                for idxs in ({owner, at}, set(range(npre)) | {owner, at}):
+                    sub = sub_history(steps, idxs)
+                    if sub is not None and sub not in cands:
+                        cands.append(sub)
+                for sub in small_candidates(steps, at, owner):
+                    if sub not in cands:
+                        cands.append(sub)
+                cands.append(steps[: at + 1])
+                for sub in cands:
+                    if forked(sub, False)["events"]:
+                        short = sub
+                        break
+            res["shorts"].append(short)
+        if res["events"]:
+            res["steps"] = steps[: max(e[1] for e in res["events"][:2]) + 1]
+        results.append(res)
+    sys.stdout.write(json.dumps(results) + "\n")
+    sys.stdout.flush()
+
+
+def start_scenarios(scs, flags=(), lines=True, env=None):
+    """the scenario process runs next to the rest of the check; collect_scenarios() waits for it"""
+    import subprocess
+    import sys
+    import tempfile
+
+    try:
+        fin = tempfile.TemporaryFile("w+")
+        fin.write(json.dumps({"scenarios": scs, "lines": lines}))
+        fin.seek(0)
+        fout = tempfile.TemporaryFile("w+")
+        p = subprocess.Popen([sys.executable, *flags, os.path.abspath(__file__), "--scenarios"], stdin=fin, stdout=fout, stderr=subprocess.DEVNULL,
+                             env=dict(os.environ, **env) if env else None)
+        return p, fout, scs, flags
+    except BaseException as e:  # noqa
+        return None, None, scs, flags
+
+
+def collect_scenarios(ctx, fails, handle, label):
+    p, fout, scs, flags = handle
+    results = None
+    if p is not None:
+        try:
+            p.wait(timeout=1800)
+            fout.seek(0)
+            results = json.loads(fout.read().strip().splitlines()[-1])
+        except BaseException as e:  # noqa
+            results = None
+    if results is None or len(results) != len(scs):
+        # the histories on a fresh library are part of what this check claims to have examined
+        from common import Infra
+
+        raise Infra(f"C06 scenario process '{label}' did not deliver its results ({'no output' if results is None else 'incomplete'})")
+    by_group = {}
+    for sc, res in zip(scs, results):
+        group = sc["group"]
+        ctx.count(f"scenario:{label}:{group}")
+        ctx.count(f"scenario:{label}:steps", res.get("nsteps", 0))
+        ctx.case(("scenario", label, sc["id"]))
+        if res.get("crash"):
+            ctx.notes.append(f"scenario {sc['id']} ({label}) did not run to its end: {res['crash'][-300:]}")
+            ctx.count(f"scenario:{label}:crashed")
+        if res.get("lines"):
+            by_group.setdefault(group, []).append(("h.reset", "ok"))
+            by_group[group] += [tuple(x) for x in res["lines"]]
+        evs = res.get("events", [])
+        steps = res.get("steps", [])
+        for i, (kind, at, owner, expected, actual) in enumerate(evs):
+            if i >= 2:
+                ctx.count(f"suppressed-failure:{kind}")
+                continue
+            short = res["shorts"][i] if i < len(res.get("shorts", [])) else None
+            alone = short is not None
+            hist = short if short is not None else steps[: at + 1]
+            if kind == "wrong-result" and steps[at][0] in RESULT_OPS:
+                expected = expected.split(" ", 1)[-1]
+                actual = actual if actual.startswith("ERR") else actual.split(" ", 1)[-1]
+            if kind == "held-result-changed":
+                what = f"the object returned by '{' '.join(map(str, steps[owner]))}' changed its content after '{' '.join(map(str, steps[at]))}'"
+            elif kind == "rejected-call-accepted":
+                what = f"'{' '.join(map(str, steps[at]))}': a word of the wrong length is reported as a code word / as repaired"
+            else:
+                what = f"'{' '.join(map(str, steps[at]))}' returns a wrong result"
+            inp = {"code": steps[owner][1] if steps[owner][0] in CALL_OPS else None, "history": [" ".join(map(str, s)) for s in hist],
+                   "scenario": sc["id"], "fails_when_run_alone_in_a_fresh_process": alone}
+            if flags:
+                inp["python_flags"] = list(flags)
+            fails(kind if kind != "wrong-result" else "wrong-result-in-history", inp,
+                  what + f" in a history that starts on a freshly imported library (scenario {sc['id']}" + (f", python {' '.join(flags)}" if flags else "") + ")",
+                  expected=expected, actual=actual)
+    if not ctx.search_only and ctx.driver_ok:
+        for group, lines in sorted(by_group.items()):
+            ctx.correspond(f"scenario.{label}.{group}", lines)
+
+
+def first_call_kinds(rng, R, op, everything=False):
+    """(kind, form, bits, focus): calls that are rejected / raise, as the first thing that happens to a class"""
+    n, k = R.n, R.k
+    L = k if op == "gen" else n
+    v = rng.randrange(2**k)
+    if op == "gen":
+        base = format(v, f"0{k}b")
+    else:
+        base = format(R.cw_int[v] ^ (1 << rng.randrange(n)), R.fmt)  # a word the repairing entry points have work to do on
+    simple = {"gen": ("be", "le", "sub-le", "np-int64", "np-uint8"), "check": ("be", "le", "dirty-be", "sub-le"), "cac": ("be", "le", "dirty-le", "sub-le"),
+              "correct": ("np-int64", "np-uint8", "np-ro", "np-frombuf", "np-col")}[op]
+    out = []
+    for kind, w in (("short1", base[:-1]), ("short1-front", base[1:]), ("half", base[: L // 2]), ("empty", ""), ("long1", base + "0"), ("long1-front", "1" + base),
+                    ("twice", base + base), ("octets", base + "1" * ((-L) % 8 or 8)), ("other-len", base[:k] if op != "gen" else base + "0" * (n - k))):
+        out.append((kind, rng.choice(simple), w, [w]))
+    other = [(f, f, base, [base]) for f in VOID_FORMS + ODD_FORMS]
+    other += [(f"short1-{f}", f, base[:-1], [base[:-1]]) for f in ("odd-list", "odd-robuf", "odd-float")]
+    if op == "cac":
+        other += [(f"raises-in-repair-{f}", f, base, [base]) for f in ("np-int64", "frozen-be", "frozen-le", "np-ro")]
+    if op == "correct":
+        other += [(f"wrong-container-{f}", f, base, [base]) for f in ("be", "frozen-le")]
+    if op == "check":
+        other += [(f"short1-{f}", f, base[:-1], [base[:-1]]) for f in ("np-int64", "frozen-be")]
+    if not everything:
+        other = rng.sample(other, 6)
+    return out + other
+
+
+def random_valid_step(rng, refs, name, forms=None):
+    R = refs[name]
+    op = rng.choice(CALL_OPS if R.is_hamming else ("gen", "check"))
+    v = rng.randrange(2**R.k)
+    if op == "gen":
+        return ["gen", name, rng.choice(("be", "le", "np-int64")), format(v, f"0{R.k}b")]
+    w = R.cw_int[v] ^ (1 << rng.randrange(R.n)) if rng.random() < 0.7 else R.cw_int[v]
+    form = rng.choice({"check": ("be", "le"), "cac": ("be", "le"), "correct": ("np-int64", "np-ro")}[op])
+    return [op, name, form, format(w, R.fmt)]
+
+
+def build_scenarios(ctx, refs):
+    rng = ctx.rng
+    names = [c[0] for c in codes()]
+    scs, opt = [], []
+
+    def add(group, ident, pre, code, focus=(), light=False, to=None, between=None):
+        (scs if to is None else to).append({"id": f"{group}/{ident}", "group": group, "pre": pre, "code": code, "focus": list(focus), "light": light, "seed": ctx.seed, "between": between})
+
+    for name in names:
+        R = refs[name]
+        ops = CALL_OPS if R.is_hamming else ("gen", "check")
+        # ---- the first call on the class is rejected / raises
+        for op in ops:
+            for kind, form, w, focus in first_call_kinds(rng, R, op, everything=ctx.thorough()):
+                add("first-call-fails", f"{name}/{op}/{kind}", [[op, name, form, bits_tok(w)]], name, focus, light=not R.is_hamming)
+            # ---- the first call is a valid one in an unusual container
+            docs = [f for f in BA_FORMS + BA_LIB_FORMS + NP_FORMS + NP_PROV_FORMS if documented(op, f) and f not in ("be", "np-int64")]
+            always = [f for f in ("le", "np-bool", "np-ro") if f in docs][:2]
+            for form in docs if ctx.thorough() else always + rng.sample([f for f in docs if f not in always], 2):
+                L = R.k if op == "gen" else R.n
+                if form.startswith("buf-") and L % 8:
+                    continue
+                v = rng.randrange(2**R.k)
+                w = format(v, f"0{R.k}b") if op == "gen" else format(R.cw_int[v] ^ (1 << rng.randrange(R.n)), R.fmt)
+                add("first-call-unusual-container", f"{name}/{op}/{form}", [[op, name, form, w]], name, light=True)
+        # ---- rejected calls later in a history / several of them
+        for i in range(3):
+            pre = [random_valid_step(rng, refs, name) for _ in range(rng.randrange(3, 24))]
+            op = rng.choice(ops)
+            kind, form, w, focus = rng.choice(first_call_kinds(rng, R, op, everything=True))
+            pre.append([op, name, form, bits_tok(w)])
+            add("rejected-call-later", f"{name}/{i}/{op}/{kind}", pre, name, focus, light=True)
+        pre, focus = [], []
+        for _ in range(6):
+            op = rng.choice(ops)
+            kind, form, w, f = rng.choice(first_call_kinds(rng, R, op, everything=True))
+            pre.append([op, name, form, bits_tok(w)])
+            focus += f
+            if rng.random() < 0.4:
+                pre.append(random_valid_step(rng, refs, name))
+        add("several-rejected-calls", name, pre, name, focus[:3], light=True)
+        # ---- the modules are executed again
+        op = rng.choice(ops)
+        kind, form, w, focus = rng.choice(first_call_kinds(rng, R, op, everything=True)[:9])
+        add("reloaded", f"{name}/used-then-reloaded/{op}/{kind}", [random_valid_step(rng, refs, name) for _ in range(5)] + [["reload", "-"], [op, name, form, bits_tok(w)]], name, focus, light=True)
+        add("reloaded", f"{name}/reloaded-at-once/{op}/{kind}", [["reload", "-"], [op, name, form, bits_tok(w)]], name, focus, light=True)
+        # ---- interpreter / process state
+        for what in AMBIENT[:-1]:
+            add("ambient", f"{name}/{what}", [["ambient", what]], name, light=True, between=["ambient", what] if what == "reseed" else None)
+        add("ambient", f"{name}/all", [["ambient", w] for w in AMBIENT[:-1]], name, light=True)
+        # ---- python -O (asserts stripped): valid calls only
+        add("python-O", name, [], name, to=opt)
+        add("python-O", f"{name}/ambient", [["ambient", "log-debug"], ["ambient", "reseed"]], name, light=True, to=opt)
+    # ---- the first call of the process goes to another class
+    for xa, xb in itertools.permutations(names, 2):
+        Ra = refs[xa]
+        op = rng.choice(CALL_OPS if Ra.is_hamming else ("gen", "check"))
+        if rng.random() < 0.6:
+            kind, form, w, focus = rng.choice(first_call_kinds(rng, Ra, op, everything=True)[:9])
+            pre = [[op, xa, form, bits_tok(w)]]
+        else:
+            kind, focus = "valid", []
+            pre = [random_valid_step(rng, refs, xa)]
+            focus = [bits_of(pre[0][3])]
+        add("first-call-on-another-class", f"{xa}-then-{xb}/{op}/{kind}", pre, xb, focus, light=True)
+    # ---- the first use of a class happens inside another part of the library (product codes), also with a wrong length
+    for what, users in (("bptc-repair", ("h15113", "h1393")), ("bptc-encode", ("h15113", "h1393")), ("vbptc-encode", ("h16114",))):
+        L = LIB_CALLS[what]
+        for kind, ln in (("valid", L), ("short", L - 1), ("long", L + 8)):
+            bits = "".join(rng.choice("01") for _ in range(ln))
+            for user in users:
+                add("first-use-through-product-code", f"{what}/{kind}/{user}", [["lib", what, bits]], user, light=True)
+    # ---- a class of the caller's own (HammingCommon with its own matrices / a subclass) next to the standard ones
+    for name in names:
+        R = refs[name]
+        if not R.is_hamming:
+            continue
+        for variant in CUSTOM_VARIANTS:
+            cname = f"custom:{name}:{variant}"
+            rr = dict(refs)
+            custom_ref(rr, cname, name, variant)
+            C = rr[cname]
+            op = rng.choice(CALL_OPS)
+            kind, form, w, focus = rng.choice(first_call_kinds(rng, C, op, everything=True)[:9])
+            c = C.cw_int[rng.randrange(2**C.k)]
+            use = [["cac", cname, "be", format(c ^ (1 << p), C.fmt)] for p in range(C.n)] + [["correct", cname, "np-int64", format(c ^ (1 << p), C.fmt)] for p in range(C.n)]
+            first = [[op, cname, form, bits_tok(w)]] if rng.random() < 0.6 else []
+            add("own-class-first", f"{name}/{variant}/{op}/{kind if first else 'valid'}", [["custom", cname, name, variant]] + first + use, name, focus, light=True)
+            kind, form, w, focus = rng.choice(first_call_kinds(rng, R, op, everything=True)[:9])
+            first = [[op, name, form, bits_tok(w)]] if rng.random() < 0.6 else [random_valid_step(rng, refs, name)]
+            add("own-class-second", f"{name}/{variant}/{op}", [["custom", cname, name, variant]] + first, cname, focus, light=True)
+    return scs, opt
+
+
 def parse_step(s: str):
     p = s.split(" ")
     if p[0] == "overwrite":
         return ["overwrite", int(p[1]), p[2]]
+    if p[0] in CALL_OPS and len(p) == 3:
+        p.append("-")
     return p
+
+
+def as_out(r) -> str:
+    if isinstance(r, str):
+        return r
+    if isinstance(r, tuple):
+        return f"{b01(r[0])} {canon(r[1])}"
+    if r is True or r is False or isinstance(r, numpy.bool_):
+        return b01(r)
+    return canon(r)
+
+
+def table_view_results(cls, R):
+    """
+    Views of the class's own tables handed to the entry points (rows of G are code words, rows of H
+    are words of length n, columns of G have length k).  [(description, actual, expected)]; the last
+    entries say whether the tables still hold what the reference copy of the standard says.
+    """
+    from okdmr.dmrlib.utils.bits_bytes import numpy_array_to_bitarray
+
+    out = []
+    G, H = cls.GENERATOR_MATRIX, cls.PARITY_CHECK_MATRIX
+    for tname, T in (("GENERATOR_MATRIX", G), ("PARITY_CHECK_MATRIX", H)):
+        for i in range(T.shape[0]):
+            ws = canon(T[i])
+            if len(ws) != R.n or ws.startswith("ERR"):
+                continue
+            out.append((f"check(numpy_array_to_bitarray({tname}[{i}]))", as_out(call(lambda: cls.check(numpy_array_to_bitarray(T[i])))), b01(R.is_cw(ws))))
+            if R.is_hamming:
+                want = R.correct(ws)
+                got = as_out(call(cls.correct_numpy_array, T[i]))
+                if want is not None:
+                    out.append((f"correct_numpy_array({tname}[{i}])  (a row view of the class table)", got, want))
+    for j in range(G.shape[1]):
+        ms = canon(G[:, j])
+        if len(ms) == R.k and not ms.startswith("ERR"):
+            out.append((f"generate(GENERATOR_MATRIX[:, {j}])  (a column view of the class table)", as_out(call(cls.generate, G[:, j])), R.enc(ms)))
+    out.append(("GENERATOR_MATRIX afterwards", json.dumps(numpy.asarray(cls.GENERATOR_MATRIX).tolist()), json.dumps([list(map(int, r)) for r in R.G])))
+    Href = [[int(R.G[i][R.k + j]) for i in range(R.k)] + [int(j == t) for t in range(R.n - R.k)] for j in range(R.n - R.k)]
+    out.append(("PARITY_CHECK_MATRIX afterwards", json.dumps(numpy.asarray(cls.PARITY_CHECK_MATRIX).tolist()), json.dumps(Href)))
+    return out
+
+
+def chain_results(cls, R, ms, pos):
+    """
+    Arguments produced by the library itself: the output of one entry point (or of the library's own
+    converters) handed to another one.  [(description, actual, expected)] for the message `ms` and
+    the error position `pos`.
+    """
+    from okdmr.dmrlib.utils.bits_bytes import bitarray_to_numpy_array, numpy_array_to_bitarray
+
+    n, k = R.n, R.k
+    c = R.enc(ms)
+    e = c[:pos] + ("1" if c[pos] == "0" else "0") + c[pos + 1 :]
+    out = []
+    g = call(cls.generate, bitarray(ms))
+    if isinstance(g, str):
+        return [("generate(m)", g, c)]
+    out.append(("generate(generate(m)[:k])  (a slice of the returned array, as BPTC does)", as_out(call(cls.generate, g[:k])), c))
+    out.append(("check(numpy_array_to_bitarray(generate(m)))", as_out(call(lambda: cls.check(numpy_array_to_bitarray(g)))), "1"))
+    r = call(cls.check, g)  # the array itself: not documented for check, may raise
+    if not isinstance(r, str):
+        out.append(("check(generate(m))", as_out(r), "1"))
+    try:
+        g[pos] ^= 1  # the caller inverts one element of the array the library returned
+    except BaseException as x:  # noqa
+        return out + [("generate(m)[pos] ^= 1", impl_error(x), "a writeable array")]
+    if not R.is_hamming:
+        out.append(("check(numpy_array_to_bitarray(generate(m) with one element inverted))", as_out(call(lambda: cls.check(numpy_array_to_bitarray(g)))), "0"))
+        return out
+    r1 = call(cls.correct_numpy_array, g)
+    out.append(("correct_numpy_array(generate(m) with one element inverted)", as_out(r1), c))
+    if not isinstance(r1, str):
+        out.append(("correct_numpy_array(correct_numpy_array(…))  (the result handed back)", as_out(call(cls.correct_numpy_array, r1)), c))
+        out.append(("check(numpy_array_to_bitarray(correct_numpy_array(…)))", as_out(call(lambda: cls.check(numpy_array_to_bitarray(r1)))), "1"))
+    g = call(cls.generate, bitarray(ms))
+    if isinstance(g, str):
+        return out + [("generate(m) once more", g, c)]
+    g[pos] ^= 1
+    r2 = call(lambda: cls.check_and_correct(numpy_array_to_bitarray(g)))
+    out.append(("check_and_correct(numpy_array_to_bitarray(generate(m) with one element inverted))", as_out(r2), f"1 {c}"))
+    if isinstance(r2, tuple) and len(r2) == 2:
+        out.append(("check(check_and_correct(…)[1])", as_out(call(cls.check, r2[1])), "1"))
+        out.append(("check_and_correct(check_and_correct(…)[1])", as_out(call(cls.check_and_correct, r2[1])), f"1 {c}"))
+        out.append(("generate(check_and_correct(…)[1][:k])", as_out(call(lambda: cls.generate(r2[1][:k]))), c))
+        out.append(("correct_numpy_array(bitarray_to_numpy_array(check_and_correct(…)[1]))", as_out(call(lambda: cls.correct_numpy_array(bitarray_to_numpy_array(r2[1])))), c))
+    # the same received word through both repairing entry points, one after the other
+    w = bitarray(e)
+    a = bitarray_to_numpy_array(w)
+    out.append(("correct_numpy_array(bitarray_to_numpy_array(w)), then check_and_correct(w)", as_out(call(cls.correct_numpy_array, a)) + " / " + as_out(call(cls.check_and_correct, w)), f"{c} / 1 {c}"))
+    return out
 
 
 # ------------------------------------------------------------------------------------------------
 def run(ctx):
     ctx.rule = (
         "per code: every one of the 2^k messages through generate; received words = all 2^n words "
-        "(n<=16 always, n=17 and Golay 2^20 thorough, a seeded sample otherwise) plus one word of every "
+        "(n<=17 always, Golay 2^20: a seeded quarter in quick, all in thorough) plus one word of every "
         "coset, every single-bit (for (16,11,4) double-bit; Golay/QR single+double+sampled triple) "
         "neighbour of code words through check / check_and_correct / correct_numpy_array; every "
         "message and a fixed share of the words again in every accepted argument container "
         "(bitarray big/little endian, dirty pad bits, imported buffer, subclass, frozen; ndarray "
         "int64/column view/reversed view/uint8/bool); histories that keep every returned object "
-        "(code book of >= 4096 encodes per code, overwrite-then-call-again, random interleaving of all "
+        "(code book of >= 8448 (thorough 70000) encodes per code, overwrite-then-call-again, random interleaving of all "
         "codes and entry points, words of one code resized to another code) and read them again "
-        "afterwards; a case is non-trivial unless it is the all-zero word; distinct = distinct "
-        "(code, operation, container, word) or history"
+        "afterwards; every message x every single error position through check_and_correct (both tiers) and "
+        "correct_numpy_array; ndarray arguments of every provenance (read-only, frombuffer over bytes / bytearray, "
+        "broadcast views, Fortran-ordered rows / columns, non-native byte order, other item sizes, object dtype, "
+        "subclass, read-only memory map, unaligned, explicit random layouts: item size x byte order x offset x "
+        "stride x writeable) for generate / correct_numpy_array (exact result) and check / check_and_correct "
+        "(may raise, must not return a wrong answer), likewise immutable bitarrays and list / tuple / str / bytes / "
+        "2-D / float containers; code words under transformations (reversed, complemented, rotated, halves "
+        "swapped, octets swapped / bit-reversed, shifted, code word of the other code of the same length); "
+        "outputs of one entry point fed to another; rejected calls (wrong length shorter / longer / empty, no "
+        "bits, wrong container) inside the interleaved history; and, in forked processes on a freshly imported "
+        "library, scenarios: the first call on a class is a rejected one (every code x entry point x kind) or uses "
+        "an unusual container or goes to another class / a caller-defined HammingCommon class with the same "
+        "dimensions or name / happens inside BPTC / VBPTC, rejected calls later, reloaded modules, root logger "
+        "at DEBUG, failing stdout / stderr, reseeded random, warnings as errors, numpy errstate raise, and python "
+        "-O — each followed by the single (and (16,11,4) double) error sweep through every entry point; a case "
+        "is non-trivial unless it is the all-zero word; distinct = distinct (code, operation, container, word), "
+        "history or scenario"
     )
     ctx.trusted_base += [
         "Lean 4.33 kernel",
         "tools/extract.py (reads GENERATOR_MATRIX / PARITY_CHECK_MATRIX / CORRECT_SYNDROME / n,k,d of the 7 classes from /repo)",
-        "hand-written model of generate/check/check_and_correct (Model/Codes.lean), of the bitarray buffer and of the "
-        "object history (Model/CodesStore.lean) tied to the code by this run's correspondence",
+        "hand-written model of generate/check/check_and_correct (Model/Codes.lean), of the bitarray buffer, of the "
+        "memory layout of an ndarray argument, of rejected calls and of the object history (Model/CodesStore.lean) "
+        "tied to the code by this run's correspondence; the model is stateless between calls, the scenario "
+        "processes are what ties that to the code",
         "numpy / bitarray are trusted as the substrate of the implementation (tobytes()/endian()/iteration of bitarray define the buffer <-> logical bits relation the model states)",
         "Spec/EtsiCodes.lean + harness/reference/etsi_codes.json: hand-maintained reference copy of the ETSI Annex B.3 generator matrices",
     ]
     ctx.assumptions += [
         "bit strings are passed as bitarrays (either bit order) of the documented length, or, for generate / "
-        "correct_numpy_array, as one-dimensional 0/1 ndarrays; check_and_correct gets a mutable bitarray",
-        "single-threaded callers",
+        "correct_numpy_array, as one-dimensional 0/1 ndarrays of any integer / bool / object dtype, layout and "
+        "writeability; check_and_correct repairs in place and therefore gets a mutable bitarray (an immutable one, "
+        "or any other container, may be refused with an exception but must not be answered wrongly)",
+        "a call with a word of the wrong length is rejected (AssertionError; not under python -O, where asserts "
+        "are stripped: there only calls of the documented length are examined)",
+        "single-threaded callers (forced thread interleavings are not examined)",
     ]
     fails = Fails(ctx)
     ref_json = json.load(open(os.path.join(os.path.dirname(os.path.abspath(__file__)), "..", "reference", "etsi_codes.json")))
@@ -672,6 +1678,10 @@ def run(ctx):
     }
     do_corr = not ctx.search_only and ctx.driver_ok
     long_held = []  # (code, history description, object, content at return) read again at the very end
+    # histories on a freshly imported library run in processes of their own, next to the sweeps below
+    scs, scs_opt = build_scenarios(ctx, refs)
+    h_fresh = start_scenarios(scs, lines=do_corr)
+    h_opt = start_scenarios(scs_opt, flags=("-OO",), lines=do_corr, env={"PYTHONHASHSEED": str(1 + ctx.seed % 1000)})  # a fixed, seed-dependent str hash
 
     for name, cls, n, k, d, is_hamming in codes():
         R = refs[name]
@@ -719,8 +1729,8 @@ def run(ctx):
                 fails("min-distance", {"code": name, "a": a, "b": b}, f"{name}: two code words at distance {dist} < {d}", expected=d, actual=dist)
 
         # ---------------- the code book as a caller collects it: every returned array is kept
-        rounds = max(1, -(-ctx.budget(4096, 16384) // 2**k))
-        gen_forms = BA_FORMS + NP_FORMS
+        rounds = max(1, -(-ctx.budget(8448, 70000) // 2**k))  # more kept arrays than a pool of 8192 / 65536 would hold
+        gen_forms = BA_FORMS + BA_LIB_FORMS + NP_FORMS + NP_PROV_FORMS
         steps = []
         for r in range(rounds):
             for v0 in range(2**k):
@@ -751,22 +1761,24 @@ def run(ctx):
         del held
 
         # ---------------- received words
-        exhaustive = n <= 16 or (ctx.thorough() and n <= 20)
+        exhaustive = n <= 17 or ctx.thorough()
         if exhaustive:
             words = range(2**n)
         else:
-            words = sorted({ctx.rng.randrange(2**n) for _ in range(ctx.budget(4000, 4000))} | {0, 2**n - 1})
+            # Golay, quick: a seeded quarter of the 2^20 words (chosen by a mix of all bits), thorough: all
+            q = ctx.seed % 4
+            words = [wv for wv in range(2**n) if (wv ^ (wv >> 7) ^ (wv >> 13)) % 4 == q or wv == 2**n - 1]
         pairs_c, pairs_cac, pairs_cor = [], [], []
         do_cac = is_hamming and (n <= 17)
         for wv in words:
             w = int2ba(wv, length=n)
-            ws = bits_str(w)
+            ws = w.to01()
             c = call(cls.check, bitarray(w))
             pairs_c.append((f"code.check {name} {ws}", ("1" if c else "0") if isinstance(c, (bool,)) or c in (True, False) else str(c)))
             ctx.case((name, "check", wv), nontrivial=wv != 0)
             if c not in (True, False) or bool(c) != (ws in cwset) or bool(c) != R.is_cw(ws):
                 fails("checker-not-exact", {"code": name, "word": ws}, f"{name}.check disagrees with code word membership", expected=R.is_cw(ws), actual=str(c))
-            if do_cac and (not exhaustive or n <= 13 or (wv % 4 == ctx.seed % 4) or (ctx.thorough() and n <= 16)):
+            if do_cac and (n <= 13 or (wv % 4 == ctx.seed % 4) or ctx.thorough()):
                 r = call(cls.check_and_correct, bitarray(w))
                 rs = r if isinstance(r, str) else f"{'1' if r[0] else '0'} {bits_str(r[1])}"
                 pairs_cac.append((f"code.cac {name} {ws}", rs))
@@ -826,22 +1838,86 @@ def run(ctx):
                         actual=rs,
                     )
 
+        # ---------------- code words under the transformations a sloppy checker may be blind to
+        def octets(x):
+            return [x[i : i + 8] for i in range(0, len(x), 8)]
+
+        tw = []
+        twin = next((o for o in refs.values() if o is not R and o.n == n), None)
+        for v in sorted({ctx.rng.randrange(2**k) for _ in range(ctx.budget(24, 256))} | {1, 2**k - 1}):
+            c = R.cw[v]
+            comp = format(R.cw_int[v] ^ (2**n - 1), R.fmt)
+            tw += [c[::-1], comp, c[k:] + c[:k], c[:k] + c[k:][::-1], c[:k][::-1] + c[k:], c[:k] + comp[k:], comp[:k] + c[k:],
+                   c[1:] + "0", c[1:] + "1", "0" + c[:-1], "1" + c[:-1], "".join(octets(c)[::-1])[:n].ljust(n, "0"), "".join(o[::-1] for o in octets(c)),
+                   "".join(o[::-1] for o in octets(c.ljust(-(-n // 8) * 8, "0")))[:n]]
+            tw += [c[r:] + c[:r] for r in range(1, n)]
+            if twin is not None:
+                o = twin.cw_int[ctx.rng.randrange(2**twin.k)]
+                tw += [format(o, R.fmt), format(o ^ R.cw_int[v], R.fmt)]
+        ctx.count(f"{name}:transformed-code-words", len(tw))
+        for ws in tw:
+            c = call(cls.check, bitarray(ws))
+            pairs_c.append((f"code.check {name} {ws}", b01(c) if c in (True, False) else str(c)))
+            ctx.case((name, "check", int(ws, 2)), nontrivial="1" in ws)
+            if c not in (True, False) or bool(c) != R.is_cw(ws):
+                fails("checker-not-exact", {"code": name, "word": ws}, f"{name}.check disagrees with code word membership on a transformed code word", expected=R.is_cw(ws), actual=str(c))
+            if do_cac:
+                r = call(cls.check_and_correct, bitarray(ws))
+                rs = r if isinstance(r, str) else f"{b01(r[0])} {bits_str(r[1])}"
+                pairs_cac.append((f"code.cac {name} {ws}", rs))
+                want = R.cac(ws)
+                if want is not None and rs != want:
+                    fails("single-error-not-repaired" if want[0] == "1" else "double-error-not-reported", {"code": name, "word": ws}, f"{name}.check_and_correct mis-handles a transformed code word within distance {1 if want[0] == '1' else 2} of a code word", expected=want, actual=rs)
+
+        # ---------------- arguments produced by the library itself: the output of one entry point handed to another
+        nchain = 0
+        for v in sorted({ctx.rng.randrange(2**k) for _ in range(ctx.budget(40, 400))} | {0, 2**k - 1}):
+            ms = format(v, f"0{k}b")
+            pos = ctx.rng.randrange(n)
+            nchain += 1
+            for desc, got, want in chain_results(cls, R, ms, pos):
+                ctx.case((name, "chain", desc, ms, pos))
+                if got != want:
+                    fails("chained-call-wrong", {"code": name, "chain": desc, "message": ms, "position": pos}, f"{name}: {desc} gives a wrong result", expected=want, actual=got)
+        ctx.count(f"{name}:chained-calls", nchain)
+        for desc, got, want in table_view_results(cls, R):
+            ctx.case((name, "table-view", desc))
+            ctx.count(f"{name}:class-table-views")
+            if got != want:
+                fails("chained-call-wrong", {"code": name, "chain": desc, "table_views": True}, f"{name}: {desc} gives a wrong result", expected=want, actual=got)
+
         # ---------------- error patterns on code words
         msgs = range(2**k) if (ctx.thorough() or k <= 9) else sorted({ctx.rng.randrange(2**k) for _ in range(ctx.budget(200, 200))} | {0, 2**k - 1})
         if is_hamming:
-            for v in msgs:
+            for v in range(2**k):  # every message x every position, in both tiers
                 c = cw[v]
                 for i in range(n):
                     w = bitarray(c)
                     w.invert(i)
-                    ws = bits_str(w)
+                    ws = w.to01()
                     r = call(cls.check_and_correct, w)
                     rs = r if isinstance(r, str) else f"{'1' if r[0] else '0'} {bits_str(r[1])}"
                     pairs_cac.append((f"code.cac {name} {ws}", rs))
                     ctx.case((name, "single", v, i), sample={"code": name, "op": "check_and_correct", "word": ws, "out": rs} if (v, i) == (3, 2) else None)
                     if rs != f"1 {c}":
                         fails("single-error-not-repaired", {"code": name, "message": bits_str(int2ba(v, length=k)), "position": i}, f"{name}.check_and_correct does not repair a single error", expected=f"1 {c}", actual=rs)
-            ctx.count(f"{name}:single-errors", len(msgs) * n)
+            ctx.count(f"{name}:single-errors", 2**k * n)
+            # the same through the ndarray entry point (containers rotate); a seeded quarter of the messages of the big codes in quick
+            cnt = 0
+            for v in range(2**k):
+                if not (ctx.thorough() or k <= 9 or v % 4 == ctx.seed % 4):
+                    continue
+                ci = R.cw_int[v]
+                for i in range(n):
+                    ws = format(ci ^ (1 << i), R.fmt)
+                    form = SWEEP_NP[(v + i) % len(SWEEP_NP)]
+                    out = canon(call(cls.correct_numpy_array, mk_arg(form, ws)))
+                    pairs_cor.append((f"code.correct {name} {ws}", out))
+                    ctx.case((name, "single-np", v, i))
+                    cnt += 1
+                    if out != R.cw[v]:
+                        fails("single-error-not-repaired", {"code": name, "op": "correct_numpy_array", "form": form, "word": ws}, f"{name}.correct_numpy_array does not repair a single error in a {form} array", expected=R.cw[v], actual=out)
+            ctx.count(f"{name}:single-errors:correct_numpy_array", cnt)
         if name == "h16114":
             pairs_ij = list(itertools.combinations(range(16), 2))
             dmsgs = msgs if ctx.thorough() else sorted({ctx.rng.randrange(2**k) for _ in range(ctx.budget(40, 40))} | {0, 2**k - 1})
@@ -864,14 +1940,23 @@ def run(ctx):
         pairs_form = []
         # generate: every message in every container
         fmsgs = range(2**k) if (k <= 9 or ctx.thorough()) else sorted({ctx.rng.randrange(2**k) for _ in range(ctx.budget(512, 512))} | {0, 1, 2**k - 1})
-        for form in gen_forms[1:]:
+        for fi, form0 in enumerate(gen_forms[1:] + ("np-lay",)):
             cnt = 0
+            # the provenance variants share the messages of the bigger codes among them
+            share = 1 if ctx.thorough() or 2**k <= 128 else 6 if form0 == "np-memmap-ro" else 3 if form0 in NP_PROV_FORMS + BA_LIB_FORMS else 1
             for v in fmsgs:
+                if (v + fi) % share:
+                    continue
                 ms = format(v, f"0{k}b")
+                # "np-lay": an ndarray view with an explicit memory layout (item size, byte order, offset, stride, writeable or not)
+                form = random_layout(ctx.rng) if form0 == "np-lay" else form0
                 arg = mk_arg(form, ms)
                 if arg is None:
                     continue
-                line = f"code.genS {name} {store_args(arg)}" if form in BA_FORMS else f"code.gen {name} {ms}"
+                if form0 == "np-lay":
+                    line = f"code.genN {name} {layout_line_args(form, ms)}"
+                else:
+                    line = f"code.genS {name} {store_args(arg)}" if form in BA_FORMS + BA_LIB_FORMS else f"code.gen {name} {ms}"
                 res = call(cls.generate, arg)
                 out = canon(res)
                 cnt += 1
@@ -903,7 +1988,7 @@ def run(ctx):
                     if again != R.cw[v]:
                         fails("container-changes-result", {"code": name, "op": "generate twice on one object", "form": form, "message": ms}, f"{name}.generate altered its argument: the second call on the same object differs", expected=R.cw[v], actual=again)
             if cnt:
-                ctx.count(f"{name}:container:{form}:generate", cnt)
+                ctx.count(f"{name}:container:{form0}:generate", cnt)
         # words: clean code words, every single error position, doubles, some arbitrary words
         wsel = []
         smp = sorted({ctx.rng.randrange(2**k) for _ in range(ctx.budget(48, 400))} | {0, 2**k - 1})
@@ -915,19 +2000,71 @@ def run(ctx):
             for i, j in prs if name == "h16114" and v in smp[:8] else ctx.rng.sample(prs, 6):
                 wsel.append(c ^ (1 << i) ^ (1 << j))
         wsel += [ctx.rng.randrange(2**n) for _ in range(ctx.budget(200, 2000))]
-        for form in BA_FORMS[1:] + (NP_FORMS if is_hamming else ()):
+        def lenient(op, form, ws, r):
+            """an undocumented container: the call may raise; what it returns must be what the property says"""
+            if isinstance(r, str):
+                ctx.count(f"{name}:lenient:{op}:raised")
+                return
+            ctx.count(f"{name}:lenient:{op}:returned")
+            if op == "check":
+                if (r is not True and r is not False and not isinstance(r, numpy.bool_)) or bool(r) != R.is_cw(ws):
+                    fails("container-changes-result", {"code": name, "op": "check", "form": form, "word": ws}, f"{name}.check of a word held in a {form} container returns (does not raise) and disagrees with code word membership", expected=R.is_cw(ws), actual=str(r))
+            elif op == "check_and_correct":
+                try:
+                    rs = f"{b01(r[0])} {canon(r[1], True)}"
+                except BaseException as e:  # noqa
+                    rs = impl_error(e)
+                want = R.cac(ws)
+                if want is not None and rs != want:
+                    fails("container-changes-result", {"code": name, "op": "check_and_correct", "form": form, "word": ws}, f"{name}.check_and_correct of a word held in a {form} container returns (does not raise) a wrong verdict / word", expected=want, actual=rs)
+            elif op == "correct_numpy_array":
+                out = canon(r, True)
+                want = R.correct(ws)
+                if want is not None and out != want:
+                    fails("container-changes-result", {"code": name, "op": "correct_numpy_array", "form": form, "word": ws}, f"{name}.correct_numpy_array of a word held in a {form} container returns (does not raise) a wrong word", expected=want, actual=out)
+
+        np_word_forms = NP_FORMS + NP_PROV_FORMS + ("np-lay",)
+        for fi, form0 in enumerate(BA_FORMS[1:] + BA_LIB_FORMS + np_word_forms + ODD_FORMS):
             cnt = 0
-            for wi in wsel:
+            # the provenance variants share the words among them (every word meets a third of them), the
+            # memory-mapped file is the most expensive to set up
+            share = (12 if form0 == "np-memmap-ro" else 4 if form0 in NP_PROV_FORMS else 2 if form0 in BA_LIB_FORMS else 1) if not ctx.thorough() else (3 if form0 == "np-memmap-ro" else 1)
+            for wn, wi in enumerate(wsel):
+                if (wn + fi) % share:
+                    continue
                 ws = format(wi, R.fmt)
-                if form in NP_FORMS:
-                    arg = mk_arg(form, ws)
-                    out = canon(call(cls.correct_numpy_array, arg))
-                    pairs_cor.append((f"code.correct {name} {ws}", out))
-                    ctx.case((name, "correct", form, wi), nontrivial=wi != 0)
-                    cnt += 1
-                    want = R.correct(ws)
-                    if want is not None and out != want:
-                        fails("container-changes-result", {"code": name, "op": "correct_numpy_array", "form": form, "word": ws}, f"{name}.correct_numpy_array mis-handles a word within distance {1 if want != ws else 2} of a code word held in a {form} array", expected=want, actual=out)
+                form = random_layout(ctx.rng) if form0 == "np-lay" else form0
+                if form in ODD_FORMS:
+                    if wn % 8 == 0:
+                        cnt += 1
+                        ctx.case((name, "odd", form, wi), nontrivial=wi != 0)
+                        lenient("check", form, ws, call(cls.check, mk_arg(form, ws)))
+                        if is_hamming:
+                            lenient("check_and_correct", form, ws, call(cls.check_and_correct, mk_arg(form, ws)))
+                            lenient("correct_numpy_array", form, ws, call(cls.correct_numpy_array, mk_arg(form, ws)))
+                    continue
+                if is_np_form(form):
+                    if is_hamming:
+                        arg = mk_arg(form, ws)
+                        out = canon(call(cls.correct_numpy_array, arg))
+                        pairs_cor.append((f"code.correctN {name} {layout_line_args(form, ws)}" if form0 == "np-lay" else f"code.correct {name} {ws}", out))
+                        ctx.case((name, "correct", form, wi), nontrivial=wi != 0)
+                        cnt += 1
+                        want = R.correct(ws)
+                        if want is not None and out != want:
+                            fails("container-changes-result", {"code": name, "op": "correct_numpy_array", "form": form, "word": ws}, f"{name}.correct_numpy_array mis-handles a word within distance {1 if want != ws else 2} of a code word held in a {form0} array", expected=want, actual=out)
+                        elif want is not None and wn % 3 == 0:
+                            # the same array object handed over once more (a read-only one cannot have been repaired in place)
+                            again = canon(call(cls.correct_numpy_array, arg))
+                            if again != want:
+                                fails("container-changes-result", {"code": name, "op": "correct_numpy_array twice on one object", "form": form, "word": ws}, f"{name}.correct_numpy_array: the second call on the same {form0} array differs", expected=want, actual=again)
+                        if wn % 8 == 1:
+                            # ndarray has no invert(): raises when there is something to repair
+                            lenient("check_and_correct", form, ws, call(cls.check_and_correct, mk_arg(form, ws)))
+                    if not is_hamming or wn % 4 == 0:
+                        ctx.case((name, "check", form, wi), nontrivial=wi != 0)
+                        cnt += not is_hamming
+                        lenient("check", form, ws, call(cls.check, mk_arg(form, ws)))
                     continue
                 arg = mk_arg(form, ws)
                 if arg is None:
@@ -942,7 +2079,7 @@ def run(ctx):
                     if cx not in (True, False) or bool(cx) != R.is_cw(ws):
                         fails("container-changes-result", {"code": name, "op": "check" if nth == "first" else "check twice on one object", "form": form, "word": ws}, f"{name}.check ({nth} call) of the same word held in a {form} container disagrees with code word membership", expected=R.is_cw(ws), actual=str(cx))
                         break
-                if is_hamming and form in MUTABLE_BA_FORMS:
+                if is_hamming and documented("cac", form):
                     r = call(cls.check_and_correct, arg)
                     if isinstance(r, str):
                         rs, rl = r, r
@@ -959,8 +2096,11 @@ def run(ctx):
                     want = R.cac(ws)
                     if want is not None and rs != want:
                         fails("container-changes-result", {"code": name, "op": "check_and_correct", "form": form, "word": ws}, f"{name}.check_and_correct mis-handles a word within distance {1 if want[0] == '1' else 2} of a code word held in a {form} container", expected=want, actual=rs)
+                elif is_hamming:
+                    # an immutable bitarray: the repair cannot be done in place; raising is accepted, a wrong answer is not
+                    lenient("check_and_correct", form, ws, call(cls.check_and_correct, arg))
             if cnt:
-                ctx.count(f"{name}:container:{form}:{'correct_numpy_array' if form in NP_FORMS else 'check+check_and_correct'}", cnt)
+                ctx.count(f"{name}:container:{form0}:{'ndarray entry points' if is_np_form(form0) else 'undocumented container' if form0 in ODD_FORMS else 'check+check_and_correct'}", cnt)
 
         # ---------------- overwrite a returned object, call again
         steps = []
@@ -1018,23 +2158,43 @@ def run(ctx):
             wi = ctx.rng.randrange(2**n)
         ws = format(wi, R.fmt)
         op = ctx.rng.choice(("gen", "check", "cac", "correct") if is_hamming else ("gen", "check"))
+        if ctx.rng.random() < 0.07:
+            # a call that is rejected / raises (wrong length, no bits, undocumented container); now and then
+            # followed by the valid words its argument collides with after cutting / padding
+            _, form, w, focus = ctx.rng.choice(first_call_kinds(ctx.rng, R, op, everything=True))
+            new = [[op, name, form, bits_tok(w)]]
+            ctx.count("hist:interleaved:rejected-or-odd-calls")
+            if ctx.rng.random() < 0.5:
+                for w2 in resized(focus[0], n)[:2]:
+                    new.append(["check", name, "be", w2])
+                    if is_hamming:
+                        new.append(["cac", name, ctx.rng.choice(("be", "le")), w2])
+            for st in new:
+                steps.append(st)
+                if st[0] in RESULT_OPS:
+                    nres += 1
+                    res_len.append(n)
+            continue
+        if ctx.rng.random() < 0.01:
+            steps.append(["ambient", "reseed"])
+            continue
         if op == "gen":
             form = ctx.rng.choice(gen_forms)
             if form.startswith("buf-") and k % 8:
                 form = "be"
             steps.append(["gen", name, form, format(v, f"0{k}b")])
         elif op == "check":
-            form = ctx.rng.choice(BA_FORMS)
+            form = ctx.rng.choice(BA_FORMS + BA_LIB_FORMS + (NP_PROV_FORMS if ctx.rng.random() < 0.15 else ()))
             if form.startswith("buf-") and n % 8:
                 form = "le"
             steps.append(["check", name, form, ws])
         elif op == "cac":
-            form = ctx.rng.choice(MUTABLE_BA_FORMS)
+            form = ctx.rng.choice(MUTABLE_BA_FORMS + BA_LIB_FORMS + (("frozen-be", "odd-robuf", "np-ro") if ctx.rng.random() < 0.1 else ()))
             if form.startswith("buf-") and n % 8:
                 form = "dirty-le"
             steps.append(["cac", name, form, ws])
         else:
-            steps.append(["correct", name, ctx.rng.choice(NP_FORMS), ws])
+            steps.append(["correct", name, random_layout(ctx.rng) if ctx.rng.random() < 0.15 else ctx.rng.choice(NP_FORMS + NP_PROV_FORMS), ws])
         if op in RESULT_OPS:
             nres += 1
             res_len.append(n)
@@ -1076,6 +2236,8 @@ def run(ctx):
         for a, v0 in tables0[name].items():
             if getattr(c[1], a).tolist() != v0:
                 fails("class-table-changed", {"code": name, "table": a}, f"{name}.{a} was modified during the run", expected="unchanged", actual="changed")
+    collect_scenarios(ctx, fails, h_fresh, "fresh")
+    collect_scenarios(ctx, fails, h_opt, "python-O")
     ctx.exhaustive = ctx.thorough()
     rank_failures(ctx, refs)
 
@@ -1086,7 +2248,7 @@ def failure_as_step(refs, f):
     if not isinstance(inp, dict) or "code" not in inp or "history" in inp:
         return None
     code, form, op = inp["code"], inp.get("form", "be"), inp.get("op", "")
-    if "twice" in op or "then the caller" in op:
+    if "twice" in op or "then the caller" in op or "chain" in inp or form.startswith("odd-"):
         return None
     if "message" in inp:
         if "position" in inp or "positions" in inp:
@@ -1096,11 +2258,11 @@ def failure_as_step(refs, f):
             return ["cac", code, "be", format(wi, refs[code].fmt)]
         return ["gen", code, form, inp["message"]]
     if "word" in inp:
-        if form in NP_FORMS:
+        if op.startswith("correct_numpy_array") or (op == "" and is_np_form(form)):
             return ["correct", code, form, inp["word"]]
         if f["kind"] == "checker-not-exact" or op == "check":
             return ["check", code, form, inp["word"]]
-        return ["cac", code, form if form in MUTABLE_BA_FORMS else "be", inp["word"]]
+        return ["cac", code, form, inp["word"]]
     return None
 
 
@@ -1153,12 +2315,29 @@ def replay(obj):
         refs = {name: Ref(name, n, k, d, h, ref_json[name]["G"]) for name, _, n, k, d, h in codes()}
         steps = [parse_step(s) for s in inp["history"] if not s.startswith("…")]
         bad = []
-        lines, held, exp = run_history(table, refs, steps, on_bad=lambda *a: bad.append(a))
+        if inp.get("python_flags"):
+            # the history needs an interpreter started with these flags (e.g. -O): a process of its own
+            handle = start_scenarios([{"id": "replay", "group": "replay", "steps": steps}], flags=tuple(inp["python_flags"]), lines=True)
+            handle[0].wait(timeout=600)
+            handle[1].seek(0)
+            res = json.loads(handle[1].read().strip().splitlines()[-1])[0]
+            lines, bad = res.get("lines", []), [tuple(e) for e in res.get("events", [])]
+            print(f"(run by: python {' '.join(inp['python_flags'])})")
+        else:
+            lines, held, exp = run_history(table, refs, steps, on_bad=lambda *a: bad.append(a))
         for line, out in lines:
             print(f"implementation  {line:60s} -> {out}")
         for kind, at, owner, want, got in bad:
             print(f"{kind}: result of step {owner} after step {at}: expected {want}, actual {got}")
         still = bool(bad)
+    elif "chain" in inp:
+        ref_json = json.load(open(os.path.join(os.path.dirname(os.path.abspath(__file__)), "..", "reference", "etsi_codes.json")))
+        name, cls, n, k, d, h = table[inp["code"]]
+        R = Ref(name, n, k, d, h, ref_json[name]["G"])
+        still = False
+        for desc, got, want in table_view_results(cls, R) if inp.get("table_views") else chain_results(cls, R, inp["message"], inp["position"]):
+            print(f"implementation {name}" + ("" if inp.get("table_views") else f", message {inp['message']}, position {inp['position']}") + f": {desc} = {got}" + ("" if got == want else f"   (expected {want})"))
+            still = still or got != want
     elif "code" in inp:
         name, cls, n, k, d, _ = table[inp["code"]]
         form = inp.get("form", "be")
@@ -1181,22 +2360,34 @@ def replay(obj):
                         still = rs != f.get("expected")
         if "word" in inp:
             ws = inp["word"]
-            if form in NP_FORMS:
-                out = canon(call(cls.correct_numpy_array, mk_arg(form, ws)))
-                print(f"implementation {name}.correct_numpy_array({ws} as {form}) = {out}")
-                still = out != f.get("expected")
+            exp = f.get("expected")
+
+            def verdict(opkey, out):
+                # an undocumented container may raise; a documented one must give the expected result
+                if documented(opkey, form):
+                    return out != str(exp)
+                return not out.startswith("ERR") and out != str(exp)
+
+            if op.startswith("correct_numpy_array") or (op == "" and is_np_form(form)):
+                arg = mk_arg(form, ws)
+                r = call(cls.correct_numpy_array, arg)
+                if "twice" in op:
+                    r = call(cls.correct_numpy_array, arg)
+                out = canon(r, True)
+                print(f"implementation {name}.correct_numpy_array({ws} as {form}){' (second call on the same array)' if 'twice' in op else ''} = {out}")
+                still = verdict("correct", out)
+            elif op.startswith("check_and_correct") or (f.get("kind") != "checker-not-exact" and not op.startswith("check")):
+                if hasattr(cls, "check_and_correct"):
+                    r = call(cls.check_and_correct, mk_arg(form, ws))
+                    rs = r if isinstance(r, str) else f"{b01(r[0])} {canon(r[1], True)}"
+                    print(f"implementation {name}.check_and_correct({ws} as {form}) = {rs}")
+                    still = verdict("cac", rs)
             else:
                 arg = mk_arg(form, ws)
                 c = call(cls.check, arg)
-                print(f"implementation {name}.check({ws} as {form}) = {c}")
-                if op.startswith("check") and op != "check_and_correct" or f.get("kind") == "checker-not-exact":
-                    c2 = call(cls.check, arg)
-                    still = str(c) != str(f.get("expected")) or str(c2) != str(f.get("expected"))
-                elif hasattr(cls, "check_and_correct"):
-                    r = call(cls.check_and_correct, mk_arg(form if form in MUTABLE_BA_FORMS else "be", ws))
-                    rs = r if isinstance(r, str) else f"{b01(r[0])} {canon(r[1])}"
-                    print(f"implementation {name}.check_and_correct({ws} as {form}) = {rs}")
-                    still = rs != f.get("expected")
+                c2 = call(cls.check, arg)
+                print(f"implementation {name}.check({ws} as {form}) = {c}, again on the same object = {c2}")
+                still = verdict("check", str(c)) or verdict("check", str(c2))
     print("expected:", f.get("expected"), "actual:", f.get("actual"))
     return 1 if still or still is None else 0
 
@@ -1206,5 +2397,7 @@ if __name__ == "__main__":
 
     if sys.argv[1:] == ["--fresh"]:
         _fresh_main()
+    elif sys.argv[1:] == ["--scenarios"]:
+        _scenarios_main()
     elif sys.argv[1:] == ["--ddmin"]:
         _ddmin_main()
